@@ -6,6 +6,7 @@ mod c01;
 mod c08;
 mod c10;
 mod c11;
+mod c12;
 mod c17;
 mod cfgmut;
 mod common;
@@ -61,6 +62,7 @@ fn main() {
 		"C11" => dispatch!(c11::C11, args),
 		"C08" => dispatch!(c08::C08, args),
 		"C17" => dispatch!(c17::C17, args),
+		"C12" => dispatch!(c12::C12, args),
 		"C09" => dispatch!(sched::SchedCheck { id: "C09" }, args),
 		"C13" => dispatch!(sched::SchedCheck { id: "C13" }, args),
 		"selfcheck-determinism" => {
